@@ -30,12 +30,19 @@ class VtOrd4(callbacks.Plugin):
     callBefore = tuple(getattr(_cfg(), 'before', {}).get('VtOrd4', ())) if _cfg() is not None else ()
     callAfter = list(getattr(_cfg(), 'after', {}).get('VtOrd4', ())) if _cfg() is not None else []
 
+    def callPrecedence(self, irc):
+        c = _cfg()
+        if c is not None and 'VtOrd4' in getattr(c, 'prec_raises', ()):
+            # (firewalled: the dispatcher then treats this plugin as one without constraints)
+            raise RuntimeError('vt_c20: callPrecedence of VtOrd4 raises, see http://example.org/caf%c3%a9%20%bar?x=%s')
+        return super().callPrecedence(irc)
+
     def die(self):
         c = _cfg()
         if c is not None:
             c.log.append(('die', 'VtOrd4'))
             if 'VtOrd4' in c.die_raises:
-                raise RuntimeError('vt_c20: die of VtOrd4 made to raise')
+                raise RuntimeError('vt_c20: die of VtOrd4 made to raise, see http://example.org/caf%c3%a9%20%bar?x=%s')
         super().die()
 
     def __call__(self, irc, msg):
@@ -43,6 +50,12 @@ class VtOrd4(callbacks.Plugin):
         if c is not None and msg.command == 'PRIVMSG' and msg.args[1].startswith('vtorder'):
             c.seen.append('VtOrd4')
         return super().__call__(irc, msg)
+
+    def vtsh2(self, irc, msg, args):
+        """takes no arguments
+
+        A command here; the plugin VtOrd5 has a helper method of the same name."""
+        irc.reply('VtOrd4 shared g%d' % self.vt_serial)
 
     def ord4(self, irc, msg, args):
         """takes no arguments
